@@ -193,6 +193,9 @@ def _child(mod, spec, out_path, timeout, idx=0):
                 os._exit(0)
             acc.inconclusive_because(f"shard {spec.get('name', spec)} crashed: {type(e).__name__}: {e}")
             acc.note(traceback.format_exc()[-1500:])
+        sg = sys.modules.get("vf.simgw")
+        for k_ in sorted(getattr(sg, "LOSS_CLASSES_SEEN", {})):
+            acc.cover("link_loss_error_classes", k_)
         acc.dump(out_path)
         sys.stdout.flush()
         sys.stderr.flush()
